@@ -532,8 +532,41 @@ class CoreScenario(Scenario):
         self.fsm_state.update(nxt)
 
     # C07 ----------------------------------------------------------------------------------------
+    def cond_can_pick(self, cid, stim, obs):
+        """the condition() block can select a branch, or may legally be passed without one"""
+        n, _ = self.a.conds[cid]
+        if any(self.admissible(b["bid"], stim, obs) for b in n["branches"]):
+            return True
+        has_default = any(not b.get("cond") for b in n["branches"])
+        return bool(n.get("nonblocking")) and not has_default and \
+            not any(self.cval(b["cond"], stim, {}) for b in n["branches"] if b.get("cond"))
+
+    def inv_c07_cond(self, stim, obs):
+        """Designs with condition(): the statement is judged in a narrower class only - a top-level transaction
+        that is fully enabled, whose condition() blocks (its own and those of the methods it calls) can all pick
+        a branch, and beside which no other top-level transaction runs at all, has no conflicting transaction
+        running: it must run."""
+        a = self.a
+        tops = [t for t in a.transactions if t not in a.branches and a.bodies[t].parent is None]
+        runs = [t for t in tops if self.run(t, obs)]
+        for t in tops:
+            if self.run(t, obs) or not self.enabled(t, stim, obs):
+                continue
+            if runs:
+                self.hit("cond_design_enabled_transaction_idle_beside_running_one")
+                continue
+            scope = {t} | set(a.tree_methods[t])
+            if all(self.cond_can_pick(cid, stim, obs) for cid, (n, encl) in a.conds.items() if encl in scope):
+                raise Violation("wasted-cycle", f"{t} is fully enabled, every condition() block it reaches can pick a branch, "
+                                f"no other transaction runs, and {t} does not run", body=t, cond_design=True)
+            self.hit("cond_design_enabled_transaction_blocked_by_condition")
+        if runs:
+            self.hit("cond_design_transaction_ran")
+
     def inv_c07(self, stim, obs):
         a = self.a
+        if a.conds:
+            return self.inv_c07_cond(stim, obs)
         runs = [t for t in a.transactions if self.run(t, obs)]
         for t in a.transactions:
             if self.run(t, obs) or not self.enabled(t, stim, obs):
@@ -652,7 +685,7 @@ class CoreScenario(Scenario):
                     return False
         # a nested condition() inside the branch must itself be able to pick a branch
         for cid, (n, encl) in a.conds.items():
-            if encl != bid:
+            if encl != bid and encl not in a.tree_methods[bid]:
                 continue
             inner = [b["bid"] for b in n["branches"]]
             if any(self.admissible(b, stim, obs) for b in inner):
